@@ -18,7 +18,7 @@ CHECKS = {
         technique="TLA+ spec (Impl=>Abs by TLC) + replay of TLC behaviours into real code via hook gates + TLC trace validation of recorded runs"),
     "C11": dict(
         category="model_checking",
-        text="BatcherImpl (chunk arithmetic N div m + 1, queryBatch's file / non-file index spaces, splice in completion order) is model-checked against the contract BatcherAbs (each request in exactly one call, at most m per call, result i answers request i, any failed call => error and no partial result, any completion order) exhaustively for N<=5,m<=3 (quick) / N<=7,m<=4 (thorough); behaviours (edge cover + seeded sample, or all) are forced on the real MultiOpQueryer with a gating RoundTripper that controls completion order and failures; free runs with random delays/failures up to N=200, m=64 are validated by TLC against BatcherAbs.",
+        text="BatcherImpl (chunk arithmetic N div m + 1, queryBatch's file / non-file index spaces, splice in completion order) is model-checked against the contract BatcherAbs (each request in exactly one call, at most m per call, result i answers request i, any failed call => error and no partial result, any completion order) exhaustively for N<=5,m<=3 (quick) / N<=7,m<=4 (thorough); behaviours (edge cover + seeded sample, or all) are forced on the real MultiOpQueryer with a gating RoundTripper that controls completion order and failures (a failing call is an HTTP 500, a body that is not JSON, or a transport error that looks like a lost connection - errors.Is finds EOF / ECONNRESET / EPIPE - after the service received the call); free runs with random delays/failures up to N=200, m=64 are validated by TLC against BatcherAbs.",
         ref="DESIGN.md section 6 C11",
         note="Assumes a service that answers each call with one entry per request in order (other shapes belong to C09); sends are observed, completion order and status are controlled.",
         technique="TLA+ spec (Impl=>Abs by TLC) + replay of TLC behaviours through a gating HTTP transport + TLC trace validation"),
@@ -60,7 +60,7 @@ CHECKS = {
         technique="TLA+ contract evaluated by TLC on recorded runs (trace validation) + negative controls"),
     "C13": dict(
         category="model_checking",
-        text="Determinism.tla: an observation of one execution is (data, set of error messages, per service the bag of sub-requests); for one gateway and one (operation, fault plan) every execution must yield the first observation again. Each generated operation is executed 6 (quick) / 25 (thorough) times on the same gateway - plain and caching planner - while Go randomises map iteration and the fake transport perturbs the completion order of the concurrent calls with seeded delays; half of the operations run under a fixed injected fault tied to sub-requests by identity or under sparse knowledge (every service answers node: null for a fixed part of the entities, in every call). Strata: core, skeleton (objects holding nothing but object-valued fields), abstract types, root node(id:) queries. ExecMerge.tla models the merge of one depth's results in completion order: TLC shows it order-independent with the rule the code uses (a null never replaces an answer) and order-dependent with last-one-wins, and enumerates the completion orders of 2..4 concurrent calls, which are FORCED on the real executor through gated service calls (each call held at the fake transport, released one at a time, the next after the executor has reduced the previous result). TLC validates every recorded observation (60k quick / 830k+ thorough executions).",
+        text="Determinism.tla: an observation of one execution is (data, set of error messages, per service the bag of sub-requests); for one gateway and one (operation, fault plan) every execution must yield the first observation again. Each generated operation is executed 7 (quick) / 26 (thorough) times on the same gateway (the first execution, which also learns the calls for the fault plan, counts: what it leaves in a cached plan must not show later) - plain and caching planner - while Go randomises map iteration and the fake transport perturbs the completion order of the concurrent calls with seeded delays; half of the operations run under a fixed injected fault tied to sub-requests by identity or under sparse knowledge (every service answers node: null for a fixed part of the entities, in every call). Strata: core, skeleton (objects holding nothing but object-valued fields), abstract types, root node(id:) queries. ExecMerge.tla models the merge of one depth's results in completion order: TLC shows it order-independent with the rule the code uses (a null never replaces an answer) and order-dependent with last-one-wins, and enumerates the completion orders of 2..4 concurrent calls, which are FORCED on the real executor through gated service calls (each call held at the fake transport, released one at a time, the next after the executor has reduced the previous result). TLC validates every recorded observation (60k quick / 830k+ thorough executions).",
         ref="DESIGN.md section 6 C13",
         note="Map-iteration nondeterminism is sampled over k executions, not enumerated; completion orders of the calls of one depth are enumerated by TLC and forced (6 order combinations per operation, all permutations available up to 4 concurrent calls). Services answer the same way by construction (faults are tied to request identity, not batch position).",
         technique="TLA+ model of merging in completion order (TLC; orders replayed on the real executor through gated calls) + TLA+ contract (first observation = every observation) evaluated by TLC on recorded repeated executions"),
@@ -72,13 +72,13 @@ CHECKS = {
         technique="TLA+ declarative union (Merge.tla) + TLC enumeration of schema sets (MergeGen.tla) replayed on the real merger in all orders + TLC trace validation of the results"),
     "C04": dict(
         category="model_checking",
-        text="Merge!RoutesOK(S, r): every root field routed to the one declaring service, every non-id field of every object type of Merged(S) routed to a service declaring it on that type, no phantom routes, Node flag iff the type implements Node, routed services = contributing services. TLC evaluates it on the TypeURLMap returned by the real merger for every mergeable set (TLC-enumerated and generated) in every order of the service list.",
+        text="Merge!RoutesOK(S, r): every root field routed to the one declaring service, every non-id field of every object type of Merged(S) routed to a service declaring it on that type, no phantom routes, Node flag iff the type implements Node, routed services = contributing services. TLC evaluates it on the TypeURLMap returned by the real merger for every mergeable set (TLC-enumerated and generated) in every order of the service list; in every other set one service calls its root operation types RootQ/RootM/RootS (same abstract schema, same expectation); in the mode extend-again every order, then the first order once more, then every service alone are merged from ONE set of parsed schema objects (what a merge leaves in its inputs must not change the next outcome; the expectation comes from what the services declared).",
         ref="DESIGN.md section 6 C04",
         note="That the planner finds a route for every field of the merged schema is exercised indirectly by C01/C02 (generated operations over the same routing tables), not enumerated per field here.",
         technique="TLA+ contract (RoutesOK) evaluated by TLC on routing tables recorded from the real merger, sets enumerated by TLC and generated"),
     "C05": dict(
         category="model_checking",
-        text="Merge!Mergeable(S) states the conflicts of the property (root field twice, one name two kinds, Node in one service only, Node-type field twice, shared plain/input type neither identical nor disjoint, shared field with different type/arguments, union with different members). For EVERY permutation of the service list the real merger (both merger functions and NewGateway) must accept iff Mergeable and never panic (MergeTrace, Enforce=C05). Sets: all sets over MergeGen.tla's grammar enumerated by TLC (2 services rich, 3 services reduced; each conflict kind arises naturally) and generated mergeable sets with 0-2 conflict-introducing edits (8 kinds).",
+        text="Merge!Mergeable(S) states the conflicts of the property (root field twice, one name two kinds, Node in one service only, Node-type field twice, shared plain/input type neither identical nor disjoint, shared field with different type/arguments, union with different members). For EVERY permutation of the service list the real merger (both merger functions and NewGateway) must accept iff Mergeable and never panic (MergeTrace, Enforce=C05). Sets: all sets over MergeGen.tla's grammar enumerated by TLC (2 services rich - incl. one name as custom scalar here and enum/object there -, 3 services reduced with three plain fields, so that one declaration can be disjoint from two that overlap each other; each conflict kind arises naturally) and generated mergeable sets with 0-2 conflict-introducing edits (8 kinds).",
         ref="DESIGN.md section 6 C05",
         note="Interfaces are declared by one service in the generated sets; directive-definition conflicts are not part of the property.",
         technique="TLA+ declarative conflict definition + TLC enumeration of schema sets replayed on the real merger in all orders + TLC trace validation"),
@@ -96,13 +96,13 @@ CHECKS = {
         technique="TLA+ model of the fan-out (TLC, all interleavings) forced on the real handler via hook gates + TLC trace validation of batch-vs-single observations"),
     "C14": dict(
         category="model_checking",
-        text="PlanCache.tla models the caching planner as written (key taken before planning, eviction on every call, lookup, compute + in-place sanitisation + store, two requests in flight) over a pool of 8 operations that differ pairwise in exactly one component (selection, operation type, which operation of a two-operation document operationName selects, variable defaults, fragment body behind the same spread, helper ids written out). TLC checks (537k states) that every request uses the plain planner's plan for ITS operation, that the key the code hashed before fix C14-X1 violates this (vacuity guard), and prints all 16,384 complete histories; a seeded slice (quick) / all (thorough) x TTL in {0, short, long} are replayed on a real caching gateway and in lockstep on a real plain gateway; CacheTrace.tla demands equal responses and equal per-service sub-request bags. Plus long random histories with 1-8 concurrent clients and varying variable values.",
+        text="PlanCache.tla models the caching planner as written (key taken before planning, eviction on every call, lookup, compute + in-place sanitisation + store, two requests in flight) over a pool of 9 operations that differ pairwise in exactly one component (selection - also: the service's root field next to a root field the gateway answers itself, whose plan the handler splits on every request -, operation type, which operation of a two-operation document operationName selects, variable defaults, fragment body behind the same spread, helper ids written out). TLC checks that every request uses the plain planner's plan for ITS operation, that the key the code hashed before fix C14-X1 violates this (vacuity guard), and prints all complete histories (23,328); a seeded slice (quick) / all (thorough) x TTL in {0, short, long} are replayed on a real caching gateway and in lockstep on a real plain gateway; CacheTrace.tla demands equal responses and equal per-service sub-request bags. Plus long random histories with 1-8 concurrent clients and varying variable values over a pool extended by 24 numbered aliases (distinct cache keys: plans are built many times), and a hammer: 16 clients send the whole pool to one caching gateway as fast as they can (plans computed, looked up and evicted at the same instant), every answer must be the plain gateway's for that operation and those variables.",
         ref="DESIGN.md section 6 C14",
         note="Expiry is straddled with real millisecond TTLs and sleeps; concurrent histories compare responses only; subscriptions interleaved with queries are exercised by the subscription drivers on a caching gateway.",
         technique="TLA+ model of the cache protocol (TLC) whose histories are replayed differentially on caching vs plain real gateways + TLC trace validation"),
     "C19": dict(
         category="model_checking",
-        text="Upload.tla: the layouts of a GraphQL multipart request (which upload mutations of two services are selected; which client file - A, B or none - the map attaches to each of four variable paths: top level, inside an input object, two list positions, one file at several paths; single or batched) and the contract SvcReqOK (a service request that uses variable v carries exactly the client's files under v at the same paths with the same name and bytes, and is multipart iff it carries one; the operation succeeds). TLC enumerates all 5,472 layouts and, at design level, shows that leaf-by-leaf extraction that nulls shared containers in place loses files for the second reader under every interleaving that lets it come second. Every layout is sent as a real multipart/form-data request through the real gateway; the fake services re-parse the multipart they receive; TLC validates what they got (UploadTrace).",
+        text="Upload.tla: the layouts of a GraphQL multipart request (which upload mutations of two services are selected; which client file - A, B or none - the map attaches to each of four variable paths: top level, inside an input object, two list positions, one file at several paths; single or batched) and the contract SvcReqOK (a service request that uses variable v carries exactly the client's files under v at the same paths with the same name and bytes, and is multipart iff it carries one; the operation succeeds). TLC enumerates all 5,472 layouts and, at design level, shows that leaf-by-leaf extraction that nulls shared containers in place loses files for the second reader under every interleaving that lets it come second. Every layout is sent as a real multipart/form-data request through the real gateway; the fake services re-parse the multipart they receive; TLC validates what they got (UploadTrace). Every other shard sends the two files under ONE client file name (they are still two files); four shards use a 3 MiB file read by several upstream requests at once.",
         ref="DESIGN.md section 6 C19",
         note="Two files (text and binary with CRLF / boundary-like bytes), trees of depth <= 2; the interleaving of the two concurrent service requests is not forced.",
         technique="TLA+ layout grammar + contract, TLC enumeration replayed as real multipart requests, TLC trace validation of what the services received"),
@@ -120,16 +120,16 @@ CHECKS = {
         technique="TLA+ contract + TLC enumeration of feature sets replayed on the real gateway (and a second gateway behind it) + TLC trace validation"),
     "C17": dict(
         category="model_checking",
-        text="SubscriptionAbs.tla: the delivery contract per (connection, id) - the frames read under an id are, in order, one per event the owning service emitted: a `data` message whose payload equals Stitch(world, subscription, event) with no errors for a data event, the upstream's error messages for an error event; no frame under an id nobody subscribed with, never more frames than events, and when the system is quiet every event has been delivered. TLC model-checks the contract on an abstract payload domain against a FIFO-forwarder design (holds, incl. eventual delivery) and a forwarder that may tag with another id (violated). SubscriptionTrace.tla binds Stitch to Norm(GQL!Ref(world with the event's value at the Subscription root field, operation)) - the same reference evaluator that decides C01 - and validates recorded traces of the real gateway: generated worlds with a Subscription root split over up to 3 services, 1-2 real websocket connections, 1-4 subscriptions (same operation several times, same id on two connections), seeded event histories (data, data-with-errors, error messages) emitted by fake upstreams over real TCP, interleaved at random, gateway configurations default/cached/sanitize/idhint.",
+        text="SubscriptionAbs.tla: the delivery contract per (connection, id) - the frames read under an id are, in order, one per event the owning service emitted: a `data` message whose payload equals Stitch(world, subscription, event) with no errors for a data event, the upstream's error messages for an error event; no frame under an id nobody subscribed with, never more frames than events, and when the system is quiet every event has been delivered. TLC model-checks the contract on an abstract payload domain against a FIFO-forwarder design (holds, incl. eventual delivery) and a forwarder that may tag with another id (violated). SubscriptionTrace.tla binds Stitch to Norm(GQL!Ref(world with the event's value at the Subscription root field, operation)) - the same reference evaluator that decides C01 - and validates recorded traces of the real gateway: generated worlds with a Subscription root split over up to 3 services, 1-2 real websocket connections, 1-4 subscriptions (same operation several times, same id on two connections), seeded event histories (data, errors without data, data next to errors, error messages) emitted by fake upstreams over real TCP, interleaved at random, gateway configurations default/cached/sanitize/idhint.",
         ref="DESIGN.md section 6 C17",
         note="Direction B only: schedules are not forced (free-running goroutines with seeded delays); operations come from the core stratum of the C01 generator (C01's recorded findings are switched off here); follow-up services answer honestly.",
         technique="TLA+ contract checked by TLC on an abstract domain + TLC trace validation of frames recorded from the real gateway against GQL!Ref, with an R7 cross-check of the harness's evaluator on every event"),
     "C18": dict(
         category="model_checking",
-        text="SubscriptionImpl.tla: one subscription on one client connection as the code is written - connection handler (stop, terminate, malformed message, abrupt disconnect; deferred exit: close frame, conn.Close, CleanAll), Listen (select on respCh/closeCh, prepare, write, deferred close of queryerCloseCh), Close, the upstream reader (read; select{respCh<-payload | <-queryerCloseCh}; exit path) and closer of MultiOpQueryer.Subscribe, plus the start whose upstream handshake fails - one action per step between two hook points, over 12 client scripts (stop, a start under the id in use, terminate, malformed message, abrupt disconnect) x 10 upstream scripts (event, error message, complete, disconnect). TLC: NoLeak (at every state where nothing can happen any more, an ended subscription/connection has no goroutine and no upstream connection left), termination EventuallyGone under weak fairness, TypeOK; SubscriptionFrames.tla: frames of concurrent writers reach the wire intact iff handed over in one Write call or under a lock. Binding: behaviours of the model (complete edge cover of its state graph in the thorough tier + sampled maximal paths) are forced on the real gateway over real websocket/TCP connections by parking every goroutine at its hook points and comparing the parked set with the model's program counters after every action; verdict from the real process: death of the (child) process, goroutines or upstream connection left after the end, malformed frame at the client.",
+        text="SubscriptionImpl.tla: one subscription on one client connection as the code is written - connection handler (stop, terminate, malformed message, abrupt disconnect; deferred exit: close frame, conn.Close, CleanAll), Listen (select on respCh/closeCh, prepare, write, deferred close of queryerCloseCh), Close, the upstream reader (read; select{respCh<-payload | <-queryerCloseCh}; exit path) and closer of MultiOpQueryer.Subscribe, plus the start whose upstream handshake fails - one action per step between two hook points, over 12 client scripts (stop, a start under the id in use, terminate, malformed message, abrupt disconnect) x 10 upstream scripts (event, error message, complete, disconnect). TLC: NoLeak (at every state where nothing can happen any more, an ended subscription/connection has no goroutine and no upstream connection left), termination EventuallyGone under weak fairness, TypeOK; SubscriptionFrames.tla: frames of concurrent writers reach the wire intact iff handed over in one Write call or under a lock. Binding: behaviours of the model (complete edge cover of its state graph in the thorough tier + sampled maximal paths) are forced on the real gateway over real websocket/TCP connections by parking every goroutine at its hook points and comparing the parked set with the model's program counters after every action; verdict from the real process: death of the (child) process, goroutines or upstream connection left after the end, malformed frame at the client. Direction B: in the free-running stress (1-3 connections, several subscriptions each, nothing forced) the hook events of every subscription's goroutines are recorded per goroutine (Listen, Close, upstream reader, upstream closer - per goroutine the order is certain, across goroutines it is not) and SubscriptionImplTrace.tla lets TLC search for a behaviour of SubscriptionImpl that explains all four logs (one position per goroutine; the shared connection handler's steps are inferred) and, the run having settled after every client left, ends with nothing of the subscription left; corrupted copies of accepted records must be refused.",
         ref="DESIGN.md section 6 C18",
         note="One subscription per connection in the forced behaviours (the operation a restart starts runs freely); two concurrent writers (two listeners, events > 4 KiB, listener + heartbeat) for frames, gated at the connection's Write calls only; free-running stress over 1-3 connections with several subscriptions each, restarts under ids in use, incomplete frames; when the code leaves the model's path without doing anything the property forbids the behaviour is judged by its end state and SPEC-DRIFT is noted; the select between a ready event and a closed closeCh cannot be forced (TLC shows no state is lost). The model is of the protocol after the fix: commits; SubscriptionImplOld.tla keeps the model of the protocol as found, whose TLC counterexamples were reproduced on the code.",
-        technique="TLA+ model of the teardown protocol checked by TLC (safety at quiescence + liveness) whose behaviours are replayed into the real gateway through a gate scheduler on build-tagged hook points; TLC trace validation of the recorded Write calls"),
+        technique="TLA+ model of the teardown protocol checked by TLC (safety at quiescence + liveness) whose behaviours are replayed into the real gateway through a gate scheduler on build-tagged hook points; TLC trace validation of the hook events of free runs (per-goroutine logs, interleaving inferred by TLC) and of the recorded Write calls"),
 }
 
 PENDING = "not claimed yet: specification and binding for this property are still being built (DESIGN.md section 10 build order)"
